@@ -36,6 +36,7 @@ EffOf(e) == [req |-> ReqOf(e.req), burnt |-> e.burnt, term |-> e.term, deployed 
                                       writes |-> {<<e.sh.writes[j][1], e.sh.writes[j][2], e.sh.writes[j][3]>> : j \in DOMAIN e.sh.writes},
                                       keep |-> {e.sh.keep[i] : i \in DOMAIN e.sh.keep}, moved |-> e.sh.moved,
                                       req |-> ReqOf(e.sh.req), dest |-> e.sh.dest,
+                                      deployed |-> {e.sh.deployed[i] : i \in DOMAIN e.sh.deployed},
                                       base |-> [n \in {e.sh.req[i].a : i \in DOMAIN e.sh.req} |->
                                                   e.sh.req[CHOOSE i \in DOMAIN e.sh.req : e.sh.req[i].a = n].b]]
                     ELSE NoShadow]
